@@ -223,7 +223,7 @@ func cmdCheck(args []string) {
 		reason string
 	}
 	var violations []vio
-	var undecided, staleList, knownHit, vacuous, unsupportedFns []string
+	var undecided, staleList, knownHit, vacuous, unsupportedFns, genErrors []string
 	seenKnown := map[string]bool{}
 	nLedger, nLedgerOK := 0, 0
 	bySolver := map[string]int{}
@@ -267,6 +267,8 @@ func cmdCheck(args []string) {
 				continue
 			}
 			switch {
+			case o.Result == "solver-error":
+				genErrors = append(genErrors, o.Name+": "+firstLines(o.Output, 2))
 			case inLedger:
 				violations = append(violations, vio{o, "obligation proved on the unchanged tree no longer discharges (" + o.Result + ")"})
 			case o.Result == "sat" && ledger.Verified[o.Fn]:
@@ -409,6 +411,13 @@ func cmdCheck(args []string) {
 	writeJSON(filepath.Join(root, "evidence", *prop+".json"), ev)
 	fmt.Printf("%s tier=%s functions=%d obligations(ledger)=%d discharged=%d known-findings=%d undecided=%d violations=%d wall=%.1fs\n",
 		*prop, *tier, len(vcs), nLedger, nLedgerOK, len(knownHit), len(undecided), len(violations), time.Since(t0).Seconds())
+	if len(genErrors) > 0 {
+		for _, g := range genErrors {
+			fmt.Println("GENERATOR-ERROR " + g)
+		}
+		fmt.Println("CHECK-ERROR: malformed solver queries (znvc bug); no verdict")
+		os.Exit(2)
+	}
 	if broken {
 		fmt.Println("CHECK-ERROR: a precondition is unsatisfiable (vacuous proofs)")
 		os.Exit(2)
